@@ -112,6 +112,13 @@ class Prov:
             if "static" in c:
                 return ("static", c["static"])
             if "promoted" in c:
+                pcs = c.get("pconsts") or []
+                if len(pcs) == 1:
+                    inner = pcs[0]
+                    d = inner["d"]
+                    if "def" in inner and not d.startswith("<"):
+                        d = inner["def"]
+                    return ("const", d, inner.get("v"))
                 return ("const", "promoted:" + c["ty"], None)
             d = c["d"]
             if "def" in c and not d.startswith("<"):
